@@ -80,7 +80,16 @@ impl Prop for C11 {
         fn dense(n: usize) -> usize {
             n * n / 2 + 2
         }
-        let single = graph_strategy(&SINGLE_KINDS, 0, 10, dense, &[0, 1, 1, 3, 5, 6], 3);
+        let single = graph_strategy(&SINGLE_KINDS, 0, 10, dense, &[0, 1, 1, 3, 5, 6, 16, 17], 3)
+            .prop_map(|mut g| {
+                // subnormal / near-overflow weights: only with edges that all draw their weight from the
+                // mode (the shapes mix in weights of 1, and a ratio of 2^-1074 underflows in any product)
+                if g.wmode >= 16 {
+                    g.shape = 0;
+                }
+                g
+            })
+            .boxed();
         let multi = graph_strategy(&[2, 3, 6, 7], 0, 6, dense, &[0, 1], 2);
         fn medium(n: usize) -> usize {
             n * 3
